@@ -487,6 +487,17 @@ fn link_cases(args: &Args, rng: &mut Rng) -> Vec<LinkCase> {
         v.push(LinkCase { name: format!("directed-{f}"), case: mk_case(&wl[4], faults_parse(f), None) });
         v.push(LinkCase { name: format!("directed-{f}-w"), case: mk_case(&wl[6], faults_parse(f), Some(0xFFFF_FFFD)) });
     }
+    // thorough: every pair of faults on the four setup chunks
+    if args.tier_thorough {
+        let setup: Vec<(usize, u8)> = vec![(0, 1), (1, 2), (0, 10), (1, 11)];
+        let mut singles = vec![];
+        for (side, ct) in &setup { for a in actions { singles.push(Fault { side: *side, ctype: *ct, ordinal: 1, action: a }); } }
+        for i in 0..singles.len() { for j in (i + 1)..singles.len() {
+            if singles[i].side == singles[j].side && singles[i].ctype == singles[j].ctype { continue; }
+            v.push(LinkCase { name: format!("double-{}+{}", singles[i].text(), singles[j].text()),
+                case: mk_case(&wl[6], vec![singles[i].clone(), singles[j].clone()], if (i + j) % 2 == 0 { None } else { Some(0xFFFF_FFFC) }) });
+        } }
+    }
     // random multi-fault histories
     let nrand = if args.tier_thorough { 2000 } else { 40 };
     for k in 0..nrand {
